@@ -1,9 +1,47 @@
 import Driver.Util
+import MpcVerif.Model.Proto2
 
 namespace Drv.C16
+open Mpc Drv
 
-/-- Line-protocol handler of property C16 (stub). -/
-def handle (_args : List String) : String := "bad-op"
+def mkH (key : List UInt8) : Hash (BitVec 128) :=
+  match Aes.Cipher.new (ByteArray.mk key.toArray) with
+  | some c => aesHash c
+  | none => hashOf id
+
+def natHex (n : Nat) : String := String.ofList (Nat.toDigits 16 n)
+def natsStr (v : List Nat) : String :=
+  if v.isEmpty then "-" else ",".intercalate (v.map natHex)
+def parseNats (s : String) : Option (List Nat) :=
+  if s == "-" then some [] else (s.splitOn ",").mapM String.toNat?
+
+def parseLabels (s : String) : Option (List (BitVec 128)) :=
+  (s.splitOn ",").mapM fun h => do
+    let b ← Aes.bytesOfHex h
+    if b.size != 16 then none else some (label128 b 0)
+
+/-- `c16 <tape> <nw> <nin> <nout> <gates> <n0> <n1> <widths> <x> <y> <labels>`:
+the garbler's result loop on the given returned labels. -/
+def handle (args : List String) : String :=
+  match args with
+  | [tape, nw, nin, nout, gates, n0, n1, widths, x, _y, labels] =>
+    match Aes.bytesOfHex tape, parseCircuit nw nin nout gates, n0.toNat?, n1.toNat?, parseNats widths,
+        parseLabels labels with
+    | some tape, some c, some n0, some n1, some widths, some labels =>
+      let p : Circuit2 := { c := c, n0 := n0, n1 := n1, outWidths := widths }
+      if tape.size < 32 + 16 * (1 + c.nIn) then "bad-op" else
+      let key := (tape.extract 0 32).toList
+      let r := setS (label128 tape 32)
+      let inl := fun i => label128 tape (32 + 16 * (i + 1))
+      let _x := parseBits x
+      let G := c.garble (mkH key) r inl
+      let ws := (List.range c.nOut).map fun j => G.wires.get (c.numWires - c.nOut + j)
+      match decodeLabels ws labels with
+      | .error _ => "error"
+      | .ok bits => s!"g={natsStr (splitNat p.outWidths (packLE bits))}"
+    | _, _, _, _, _, _ => "bad-op"
+  | "fault" :: _ => "skip"
+  | _ => "bad-op"
 
 end Drv.C16
 
